@@ -64,3 +64,10 @@ func lastNode(nn []ast.Vertex) ast.Vertex {
 	}
 	return nn[len(nn)-1]
 }
+
+// hasLeadingZero reports whether the digits of a simple interpolation offset
+// ("$a[01]") start with a surplus zero: PHP treats only "0" and decimal numbers
+// without leading zeros as integer keys, everything else is a string key.
+func hasLeadingZero(v []byte) bool {
+	return len(v) > 1 && v[0] == '0'
+}
